@@ -1298,8 +1298,25 @@ def make_hostile_server(tree, outside: bytes, extreme: bool = False):
             self.registered = set()
             self.scanned = set()
 
+        def _at(self, path: bytes):
+            """Nodes at the path as the client composed it; a hostile server
+            is not picky about how the client spells a path it handed out
+            (doubled or trailing separators)"""
+
+            if path in self.nodes:
+                return self.nodes[path]
+
+            def norm(p: bytes) -> bytes:
+                while b'//' in p:
+                    p = p.replace(b'//', b'/')
+                return p.rstrip(b'/') or b'/'
+
+            want = norm(path)
+            return [n for key, nodes in self.nodes.items()
+                    if norm(key) == want for n in nodes]
+
         def _find(self, path: bytes, kinds: str):
-            for node in self.nodes.get(path, []):
+            for node in self._at(path):
                 eff = node['t'] if node['t'] != 'l' else \
                     ('l' + (node.get('as') or ''))
 
@@ -1324,7 +1341,7 @@ def make_hostile_server(tree, outside: bytes, extreme: bool = False):
             return attrs_of(node['t'], node.get('size', 0))
 
         async def scandir(self, path):
-            cands = [n for n in self.nodes.get(path, [])
+            cands = [n for n in self._at(path)
                      if n['t'] == 'd' or (n['t'] == 'l' and
                                           n.get('as') == 'd')]
 
@@ -1499,6 +1516,8 @@ GET_NAMES = [b'a', b'b', b'evil', b'l', b'l', b'x', b'..', b'.', b'..',
              SENTINEL + b'/evil', b'$OUT/evil', b'$OUT/canary.txt',
              b'a/b', b'a/../../../evil', b'/', b'//', b'x/', b'', b'...',
              b'../dest/ok', b'./y', b'a/..', b'x/../..', b'../..',
+             # dot names dressed up with separators
+             b'../', b'..//', b'./', b'/..', b'/../', b'.//.',
              b'\xff\xfe', b'n' * 300, b'outside', b'canary.txt', b'.hidden']
 GET_TARGETS = [b'../../outside', b'../outside', b'$OUT', b'$OUT/sub',
                b'../../outside/sub', b'..', b'../..', b'a', b'.', b'/',
@@ -1547,15 +1566,38 @@ def dup_scenario(draw):
     return pre + [first, second]
 
 
+@st.composite
+def climb_scenario(draw):
+    """A chain of directories whose names are spellings of '.' and '..'
+    (as listed by the server: with separators around them), then files: each
+    level that the client takes for a real directory climbs one up"""
+
+    climbers = [b'../', b'..//', b'/..', b'/../', b'..', b'./..', b'..\\',
+                b'.. ', b'../.']
+    depth = draw(st.integers(2, 4))
+    kids: List[Any] = draw(st.lists(st.tuples(
+        pick([b'evil', b'canary.txt', b'pwn']),
+        st.integers(0, 9)).map(lambda t: {'n': t[0], 't': 'f',
+                                          'size': t[1]}),
+        min_size=1, max_size=2))
+
+    for _ in range(depth):
+        kids = [{'n': draw(pick(climbers)), 't': 'd', 'kids': kids}]
+
+    return draw(get_tree(1, 2)) + kids
+
+
 def sftp_get_strategy(tier: str):
     depth = 2 if tier == 'quick' else 3
 
     @st.composite
     def build(draw):
-        shape = draw(pick(['tree', 'tree', 'tree', 'dup']))
+        shape = draw(pick(['tree', 'tree', 'tree', 'dup', 'climb']))
 
         if shape == 'dup':
             tree = draw(dup_scenario())
+        elif shape == 'climb':
+            tree = draw(climb_scenario())
         else:
             tree = draw(get_tree(depth, 3).filter(bool))
 
